@@ -222,6 +222,9 @@ class AsyncScope(_Scope):
                      z3.Implies(entered, V.bval(st.get(tg, "$tg_exited"))))
             st.check("C06-P2:enter-failed:task-group-was-awaited-before-leaving",
                      z3.Implies(entered, V.bval(st.get(tg, "$tg_exited"))))
+            if any(c for _, _, c in self.raised):
+                st.check("C07-P5:enter-cancelled:the-task-group-is-exited-so-spawned-tasks-are-cancelled(T-TG)",
+                         z3.Implies(entered, V.bval(st.get(tg, "$tg_exited"))))
             st.check("C07-P2:enter:a-cancellation-is-not-swallowed",
                      z3.BoolVal(True) if not any(c for _, _, c in self.raised) else is_exc(it, pr.val, "CancelledError"))
             st.check("C08-P5:enter:disposables-entered-at-most-once", z3.BoolVal(g.get("disp_entered", 0) <= 1))
@@ -276,6 +279,10 @@ class AsyncScope(_Scope):
         st.check("C02-P1:metrics-scope-is-finished-on-this-path", z3.BoolVal(len(fin) == 1))
         cleanup_failed = [r for r in self.raised]
         cancels = [r for r in self.raised if r[2]]
+        if cancels or (it.kind(ev_) == "ref"):
+            st.check("C07-P5:exit:the-task-group-is-exited-with-the-failure-so-spawned-tasks-are-cancelled(T-TG)",
+                     z3.And(V.bval(st.get(tg, "$tg_exited")),
+                            z3.BoolVal(len(tge) == 1) if len(tge) != 1 else tge[0][3] == ev_))
         if exc is None:
             st.check("C02-P3:does-not-suppress-the-body-exception", z3.Not(it.truthy(ret)))
             st.check("C08-P4:a-disposable-cleanup-error-is-not-dropped-by-the-scope",
